@@ -797,6 +797,14 @@ impl Property for C07 {
             amend_some(&mut ph.edits, seed, "C07-amend-e", idx * 16 + k);
             same_stat_some(&mut ph.dirty, seed, "C07-samestat-d", idx * 16 + k);
             same_stat_some(&mut ph.edits, seed, "C07-samestat-e", idx * 16 + k);
+            // a file that is deleted after the update was, one time in three, emptied just before it: an empty file
+            // and a missing file are different states (own generator)
+            let mut erng = Rng::new(scenario_seed(seed, "C07-empty-then-delete", idx * 16 + k));
+            let emptied: Vec<GitOp> = ph.edits.iter().filter_map(|o| match o {
+                GitOp::Delete { path } if !path.ends_with("dirlink") && erng.chance(1, 3) => Some(GitOp::Empty { path: path.clone() }),
+                _ => None,
+            }).collect();
+            ph.dirty.extend(emptied);
         }
         serde_json::to_value(sc).unwrap()
     }
